@@ -112,6 +112,7 @@ structure MState where
   sys : Sys := {}
   blocks : List (List String) := []          -- the implementation's reload blocks still to come
   binLines : List String := []               -- the implementation's `bin <obj> <hex>` lines still to come
+  noBin : Bool := false                      -- inside a reference compile (`reloadf`)
   fresh : List (String × List (List String)) := []    -- tag ↦ D lines (tokens after "D tag") of the last fresh compile
   freshR : List (String × List String) := []
   rno : Nat := 0
@@ -297,7 +298,7 @@ def sysLine (m : MState) (line : String) : MState :=
     let m := m.emit s!"begin {rno}"
     let w := m.sys.w
     let sys0 := { m.sys with w := { w with loaded := w.loaded.filter (fun o => !(fam.contains o)) }, evs := [] }
-    let (sys1, ok) := loadObject sys0 (top ++ ".c") true 64
+    let (sys1, ok) := loadObject sys0 (top ++ ".c") (!m.noBin) 64
     let evs := sys1.evs.reverse
     let m := (evs.filterMap showEv).foldl MState.emit m
     let m := { m with reasons := m.reasons ++ evs.filterMap (fun e => match e with
@@ -350,7 +351,15 @@ def runModel (body : List String) : List String :=
   -- a crash of the model's own prediction stops the case like the sanitizer stops the driver
   -- `reloadp` is `reload` in a new process: the same decisions
   let norm (l : String) : String := if l.startsWith "reloadp " then "reload " ++ (l.drop 8).toString else l
-  let m := caseLines.foldl (fun m l => if m.out.head? == some "crash sanitizer" then m else sysLine m (norm l)) m0
+  -- `reloadf`: the reference compile in a process of its own, binaries neither read nor written: the model's state is
+  -- the same afterwards, but the dumps and call results become the "last fresh compile" the next binary load is
+  -- predicted from — what the CURRENT sources compile to
+  let step (m : MState) (l : String) : MState :=
+    if l.startsWith "reloadf " then
+      let m' := sysLine { m with noBin := true } ("reload " ++ (l.drop 8).toString)
+      { m' with sys := m.sys, noBin := false }
+    else sysLine m (norm l)
+  let m := caseLines.foldl (fun m l => if m.out.head? == some "crash sanitizer" then m else step m l) m0
   m.out.reverse
 
 /-- branch histogram of the decision model (used by the evidence, not by the check) -/
@@ -359,7 +368,8 @@ def runReasons (body : List String) : List String :=
   let m0 : MState := { blocks := splitBlocks trace, binLines := trace.filter (·.startsWith "bin "),
                        sys := { w := { files := [("simul_efun.c", 2000000000)] } } }
   let norm (l : String) : String := if l.startsWith "reloadp " then "reload " ++ (l.drop 8).toString else l
-  (caseLines.foldl (fun m l => sysLine m (norm l)) m0).reasons
+  (caseLines.foldl (fun m l => if l.startsWith "reloadf " then
+      { m with rno := m.rno + 1, blocks := m.blocks.drop 1 } else sysLine m (norm l)) m0).reasons
 
 def runJudge (body : List String) : List String :=
   let (caseLines, impl) := splitJudge body
